@@ -58,6 +58,27 @@ def started (t : Tree) : Tree := .ask (.other 0) (.leaf .ret) (.eff .start (.eff
 -- an ordinary thread is refused
 #guard studentChecks (.ask .plain (.leaf .raiseSystemExit) (.ask .claim finish (.leaf .raiseSystemExit))) == none
 
+/-! `_stop_mocking` that tells the execution its thread was started for (`timed`) from others finishing there -/
+def raced : Tree := .ask .claim finish (.leaf .raiseSystemExit)
+-- `if claim is None or mark is not context: return True; return claim()`
+#guard studentChecks (.ask .plain finish (.ask .timed raced finish)) == some true
+-- the same with the mark looked at first, and as measured (no `plain` question under `timed`)
+#guard studentChecks (.ask .timed (.ask .plain finish raced) finish) == some true
+#guard studentChecks (.ask .plain finish (.ask .timed raced finish)) == studentChecks (.ask .plain finish raced)
+-- the test inverted (`is context`): the timed execution is never raced for, every other one is
+#guard studentChecks (.ask .plain finish (.ask .timed finish raced)) == none
+-- another execution finishing on the thread still takes the thread's claim (the defect the mark repairs)
+#guard studentChecks (.ask .plain finish (.ask .timed raced raced)) == none
+-- another execution finishing on the thread is ended silently / does not finalize
+#guard studentChecks (.ask .plain finish (.ask .timed raced (.leaf .raiseSystemExit))) == none
+#guard studentChecks (.ask .plain finish (.ask .timed raced (.leaf .fall))) == none
+-- the mark is looked at, but nobody is raced for: the pinned shape
+#guard studentChecks (.ask .plain finish (.ask .timed finish finish)) == some false
+-- the timed execution touches the sandbox before it asks
+#guard studentChecks (.ask .plain finish (.ask .timed (.eff .stopPatches raced) finish)) == none
+-- the measurement of the timed execution failed: nothing established (the reading decides)
+#guard studentChecks (.ask .plain finish (.ask .timed (.opaque 9) finish)) == none
+
 /-! the handler -/
 def rest : Tree := .eff .capture (.eff .bump (.leaf .ret))
 def full : Tree := .eff .stopPatches (.ask .haveStdout (.eff .popStdout (.eff .appendOutput rest)) rest)
